@@ -69,6 +69,17 @@ where
 }
 
 ///
+/// (verification hook, only with `--cfg flo_curves_verif`) calls the private `intersections_with_linear_section`
+///
+#[cfg(flo_curves_verif)]
+pub fn verif_intersections_with_linear_section<'a, C: BezierCurve>(linear_section: &CurveSection<'a, C>, curved_section: &CurveSection<'a, C>, accuracy: f64) -> SmallVec<[(f64, f64); 4]>
+where 
+    C::Point: 'a+Coordinate2D,
+{
+    intersections_with_linear_section(linear_section, curved_section, accuracy)
+}
+
+///
 /// The result of the clip operation
 ///
 #[derive(Debug)]
